@@ -287,9 +287,46 @@ func judge(sc scenario, res result, labels map[string]bool) *verdict {
 			nextGen = nl[0].start
 		}
 		first, last := ls[0], ls[len(ls)-1]
+		// A firing belongs to the generation whose participants it reports; only when several
+		// generations of this game count name the same participants does the time decide. (The
+		// moment a callback stamps itself can fall a few microseconds after the next set-up
+		// call began, while that call was still waiting for the gate's mutex.)
+		sameParts := func(a map[string]int, f fire) bool {
+			if len(a) != len(f.Parts) {
+				return false
+			}
+			for id, idx := range a {
+				if p, ok := f.Parts[id]; !ok || p.Index != idx {
+					return false
+				}
+			}
+			return true
+		}
 		var fires []fire
 		for _, f := range res.Fires {
-			if f.GC == gc && !f.At.Before(ls[0].start) && (nextGen.IsZero() || f.At.Before(nextGen)) {
+			if f.GC != gc {
+				continue
+			}
+			matching, mine := 0, false
+			for g := 0; ; g++ {
+				gl, ok := byGC[sid{gc, g}]
+				if !ok {
+					break
+				}
+				if sameParts(gl[0].parts, f) {
+					matching++
+					if g == key.gen {
+						mine = true
+					}
+				}
+			}
+			if matching == 1 {
+				if mine {
+					fires = append(fires, f)
+				}
+				continue
+			}
+			if !f.At.Before(ls[0].start) && (nextGen.IsZero() || f.At.Before(nextGen)) {
 				fires = append(fires, f)
 			}
 		}
